@@ -18,7 +18,8 @@ CONSTANT TraceFile
 
 Trace == ndJsonDeserialize(TraceFile)
 
-VARIABLES l, S, obs, iss
+\* fgn = the chains that acted as a foreign (not ibc-go) counterparty so far in this trace (ForeignConn / ForeignChan)
+VARIABLES l, S, obs, iss, fgn
 
 SetOf(arr) == { arr[i] : i \in DOMAIN arr }
 
@@ -46,7 +47,11 @@ Flag(name, bad) == { name : x \in IF bad THEN {1} ELSE {} }
 \* the handshake state the counterparty end must be proven in when an end in state st becomes OPEN
 PeerStateFor(st) == IF st = "INIT" THEN "TRYOPEN" ELSE "OPEN"
 
-Viol(pre, a, r, post, dig0, dig1, st2, j, seen) ==
+\* fg = chains that played a foreign counterparty up to and including this step.  Scoping: a foreign write is not a step
+\* of the code under test (no transition monitor applies to it); end-to-end agreement is promised between two chains
+\* that both follow the protocol (fg = {}); state invariants on stored ends are promised for the chains not in fg.
+\* Every step-local monitor (pre, action, post of the acting chain's REAL transaction) keeps applying on both chains.
+Viol(pre, a, r, post, dig0, dig1, st2, j, seen, fg) ==
   LET c    == a.c
       t    == pre.now + a.dt
       cs   == pre.ch[c]
@@ -55,6 +60,7 @@ Viol(pre, a, r, post, dig0, dig1, st2, j, seen) ==
       pc   == ps.cur
       E    == Step(pre, a)
       ok   == r = "ok"
+      isF  == a.a \in ForeignMsgs
       Unchanged == pc = cur /\ ps.cons = cs.cons /\ ps.frozen = cs.frozen /\ dig0 = dig1
       NewConns  == (DOMAIN pc.conns) \ (DOMAIN cur.conns)
       NewChans  == (DOMAIN pc.chans) \ (DOMAIN cur.chans)
@@ -91,27 +97,27 @@ Viol(pre, a, r, post, dig0, dig1, st2, j, seen) ==
   IN
   \* ---- C12 channel handshake state machine and end-to-end agreement ---------------------------------
        Flag(<<"C12", "chan-state-moves-only-along-allowed-transitions">>,
-            \E n \in DOMAIN cur.chans : ~(n \in DOMAIN pc.chans /\ ChanStateMove(cur.chans[n].st, pc.chans[n].st)))
+            ~isF /\ \E n \in DOMAIN cur.chans : ~(n \in DOMAIN pc.chans /\ ChanStateMove(cur.chans[n].st, pc.chans[n].st)))
   \cup Flag(<<"C12", "new-end-only-INIT-by-init-or-TRYOPEN-by-try">>,
             \E n \in NewChans : ~(ok /\ ( (a.a = "ChanOpenInit" /\ pc.chans[n].st = "INIT")
                                         \/ (a.a = "ChanOpenTry" /\ pc.chans[n].st = "TRYOPEN"))))
   \cup Flag(<<"C12", "open-only-with-proof-of-matching-counterparty-end">>,
-            \E n \in DOMAIN pc.chans : pc.chans[n].st = "OPEN" /\ ChanNo(cur, n).st # "OPEN"
+            ~isF /\ \E n \in DOMAIN pc.chans : pc.chans[n].st = "OPEN" /\ ChanNo(cur, n).st # "OPEN"
                                        /\ ~(n \in DOMAIN cur.chans /\ ChanOpenedOk(n)))
   \cup Flag(<<"C12", "tryopen-only-with-proof-of-INIT-counterparty-end">>,
             a.a = "ChanOpenTry" /\ ok /\ ~(Cardinality(NewChans) = 1 /\ \A n \in NewChans : ChanTriedOk(n)))
-  \cup Flag(<<"C12", "both-open-agree">>, ~I_ChanAgree(post))
+  \cup Flag(<<"C12", "both-open-agree">>, fg = {} /\ ~I_ChanAgree(post))
   \cup Flag(<<"C12", "close-confirm-needs-proof-of-CLOSED">>, a.a = "ChanCloseConfirm" /\ ok /\ ~ChanCloseProven)
   \* ---- C13 connection handshake safety and version negotiation --------------------------------------
   \cup Flag(<<"C13", "conn-state-moves-only-along-allowed-transitions">>,
-            \E n \in DOMAIN cur.conns : ~(n \in DOMAIN pc.conns /\ ConnStateMove(cur.conns[n].st, pc.conns[n].st)))
+            ~isF /\ \E n \in DOMAIN cur.conns : ~(n \in DOMAIN pc.conns /\ ConnStateMove(cur.conns[n].st, pc.conns[n].st)))
   \cup Flag(<<"C13", "open-is-absorbing">>,
-            \E n \in DOMAIN cur.conns : cur.conns[n].st = "OPEN" /\ ~(n \in DOMAIN pc.conns /\ pc.conns[n].st = "OPEN"))
+            ~isF /\ \E n \in DOMAIN cur.conns : cur.conns[n].st = "OPEN" /\ ~(n \in DOMAIN pc.conns /\ pc.conns[n].st = "OPEN"))
   \cup Flag(<<"C13", "new-end-only-INIT-by-init-or-TRYOPEN-by-try">>,
             \E n \in NewConns : ~(ok /\ ( (a.a = "ConnOpenInit" /\ pc.conns[n].st = "INIT")
                                         \/ (a.a = "ConnOpenTry" /\ pc.conns[n].st = "TRYOPEN"))))
   \cup Flag(<<"C13", "open-only-with-proof-of-matching-counterparty-end">>,
-            \E n \in DOMAIN pc.conns : pc.conns[n].st = "OPEN" /\ ConnAt(cur, n).st # "OPEN"
+            ~isF /\ \E n \in DOMAIN pc.conns : pc.conns[n].st = "OPEN" /\ ConnAt(cur, n).st # "OPEN"
                                        /\ ~(n \in DOMAIN cur.conns /\ ConnOpenedOk(n)))
   \cup Flag(<<"C13", "tryopen-only-with-proof-of-INIT-counterparty-end">>,
             a.a = "ConnOpenTry" /\ ok /\ ~(Cardinality(NewConns) = 1 /\ \A n \in NewConns : ConnTriedOk(n)))
@@ -122,8 +128,8 @@ Viol(pre, a, r, post, dig0, dig1, st2, j, seen) ==
             a.a = "ConnOpenAck" /\ ok
             /\ ~(LET e0 == ConnAt(cur, a.conn)  e1 == ConnAt(pc, a.conn) IN
                  Len(e1.vers) = 1 /\ IsSupported(e0.vers, e1.vers[1])))
-  \cup Flag(<<"C13", "negotiated-ends-carry-one-supported-version">>, ~I_SingleNegotiatedVersion(post))
-  \cup Flag(<<"C13", "both-open-agree">>, ~I_ConnAgree(post))
+  \cup Flag(<<"C13", "negotiated-ends-carry-one-supported-version">>, \E d \in Chains \ fg : ~SingleNegotiatedVersionOn(post, d))
+  \cup Flag(<<"C13", "both-open-agree">>, fg = {} /\ ~I_ConnAgree(post))
   \cup Flag(<<"C13", "localhost-handshake-refused">>,
             a.a \in {"ConnOpenInit", "ConnOpenTry"} /\ a.cl = "localhost" /\ ~(~ok /\ Unchanged))
   \cup Flag(<<"C13", "channel-needs-single-version-supporting-ordering">>,
@@ -154,7 +160,7 @@ Report(ln, viol) == \A v \in viol : PrintT(<<"MONFAIL", ln.tr, ln.i, v>>)
 (***************************************************************************)
 (* Trace behaviour                                                         *)
 (***************************************************************************)
-TraceInit == l = 1 /\ S = InitOf(Trace[1]) /\ obs = ObsOf(Trace[1])
+TraceInit == l = 1 /\ S = InitOf(Trace[1]) /\ obs = ObsOf(Trace[1]) /\ fgn = {}
              /\ iss = [c \in Chains |-> IdsOf(Trace[1].st.ch[c])]
 
 KnownNames(j) ==
@@ -176,20 +182,22 @@ TraceNext ==
     /\ l < Len(Trace)
     /\ LET ln == Trace[l + 1] IN
        IF ln.a.a = "Init"
-       THEN /\ S' = InitOf(ln) /\ obs' = ObsOf(ln) /\ l' = l + 1
+       THEN /\ S' = InitOf(ln) /\ obs' = ObsOf(ln) /\ l' = l + 1 /\ fgn' = {}
             /\ iss' = [c \in Chains |-> IdsOf(ln.st.ch[c])]
        ELSE LET a  == ln.a
                 c  == a.c
                 j  == ln.st.ch[c]
                 S2 == Commit(S, c, S.now + a.dt, ProvOf(j.cur), SetOf(j.cons), j.frozen)
+                fg == IF a.a \in ForeignMsgs THEN fgn \cup {c} ELSE fgn
             IN /\ Report(ln, Sanity(ln, S)
                              \cup Viol(S, a, ln.res, S2, obs[c].dig, j.dig,
-                                       [d \in Chains |-> ln.st.ch[d].status], j, iss[c]))
+                                       [d \in Chains |-> ln.st.ch[d].status], j, iss[c], fg))
                /\ S' = S2
+               /\ fgn' = fg
                /\ obs' = ObsOf(ln)
                /\ iss' = [iss EXCEPT ![c] = @ \cup IdsOf(j)]
                /\ l' = l + 1
     /\ (l + 1 = Len(Trace) => PrintT(<<"CONSUMED", l + 1>>))
 
-TraceSpec == TraceInit /\ [][TraceNext]_<<l, S, obs, iss>>
+TraceSpec == TraceInit /\ [][TraceNext]_<<l, S, obs, iss, fgn>>
 =============================================================================
